@@ -369,6 +369,9 @@ def discharge(prelude: List[Any], obligations: List[Any], timeout: float = 10.0,
         # the weakened variants help when a set-theory / class axiom misleads the instantiation; they do not help string
         # obligations, where they only multiply the time an open obligation costs
         stubborn = [it for it in stubborn if not has_string_terms(it[2])]
+    # budget: the weakened-query portfolio costs minutes per obligation; when many obligations are open the tree has a real
+    # problem and the portfolio is pointless - it is run for at most PYVC_DROP_MAX (default 4) of them
+    stubborn = stubborn[:int(os.environ.get("PYVC_DROP_MAX", "4"))]
     if stubborn and drop_portfolio and os.environ.get("PYVC_NO_DROP") != "1":
         variants = []
         for idx, r, ob in stubborn:
